@@ -18,6 +18,14 @@ def para_one(s):
     return _ok(Paragraph(s), s)
 
 
+def span_one(s):
+    return _ok(Span(s), s)
+
+
+def header_one(s):
+    return _ok(Header(1, s), s)
+
+
 def para_two_appends(s1, s2):
     p = Paragraph(s1)
     p.append_plain_text(s2)
